@@ -18,8 +18,8 @@ def sh(cmd, cwd=None, env=None, timeout=3600):
     return p.returncode, p.stdout + p.stderr
 
 
-def verify(prop, i):
-    src = f"{OUT}/{prop}.out"
+def verify(prop, i, src=None, store_as=None):
+    src = src or f"{OUT}/{prop}.out"
     wt = f"/tmp/sv-{prop}-{i}"
     sh(f"git -C /repo worktree remove --force {wt}")
     rc, o = sh(f"git -C /repo worktree add -q --detach {wt} HEAD")
@@ -43,7 +43,7 @@ def verify(prop, i):
             sh("git diff > /tmp/seed.diff", cwd=wt)
         print(f"{prop}-{i}: applies={applies} clean_demo_ok={clean_ok} tests_ok={tests_ok} demo_fails={demo_fails}")
         if applies and clean_ok and tests_ok and demo_fails:
-            d = f"{SEEDED}/{prop}-{i}"
+            d = f"{SEEDED}/{prop}-{store_as or i}"
             os.makedirs(d, exist_ok=True)
             shutil.copy("/tmp/seed.diff", f"{d}/patch.diff")
             shutil.copy(f"{src}/demo{i}.py", f"{d}/demo.py")
@@ -82,7 +82,7 @@ def check(name, props, tier):
 
 if __name__ == "__main__" and sys.argv[1] != "matrix":
     if sys.argv[1] == "verify":
-        verify(sys.argv[2], sys.argv[3])
+        verify(*sys.argv[2:6])
     else:
         args = [a for a in sys.argv[3:] if not a.startswith("--")]
         tier = "thorough" if "--thorough" in sys.argv else "quick"
